@@ -5,6 +5,7 @@ import (
 	"encoding/json"
 	"fmt"
 	"os"
+	"os/exec"
 	"path/filepath"
 	"sort"
 	"strconv"
@@ -237,6 +238,9 @@ func runCheck(prop, repo, verif, tier, work string, tmo int, verbose bool, updat
 		if f.o != nil && f.rep != nil && f.o.Status == "failed" {
 			reproduced = tryReplay(prog, cs, f.rep, f.o, repo, verif, work, &rr)
 		}
+		if !reproduced {
+			reproduced = tryCanary(f.name, repo, verif, work, &rr)
+		}
 		rfile := filepath.Join(replayDir, sanitize(strings.ReplaceAll(f.name, "/", "__"))+".json")
 		if rr.Query != "" {
 			// keep the failing query next to the replay file
@@ -393,6 +397,48 @@ func tryReplay(prog *Program, cs *ContractSet, rep *FuncReport, o *ObligSummary,
 			rr.Trace = ob.Trace
 			return true
 		}
+	}
+	return false
+}
+
+// tryCanary runs the hand-written canary input registered for an obligation (replay/canaries/index.json)
+// against the real code; used where the solver gives no model (nonlinear / quantified obligations).
+func tryCanary(obligation, repo, verif, work string, rr *ReplayResult) bool {
+	b, err := os.ReadFile(filepath.Join(verif, "replay", "canaries", "index.json"))
+	if err != nil {
+		return false
+	}
+	var idx map[string]struct{ File, Pkgdir, Input string }
+	if json.Unmarshal(b, &idx) != nil {
+		return false
+	}
+	e, ok := idx[obligation]
+	if !ok {
+		return false
+	}
+	src, err := os.ReadFile(filepath.Join(verif, "replay", "canaries", e.File))
+	if err != nil {
+		return false
+	}
+	wd := filepath.Join(work, "canary_"+sanitize(obligation))
+	os.MkdirAll(wd, 0o755)
+	testFile := filepath.Join(wd, "verif_canary_test.go")
+	os.WriteFile(testFile, src, 0o644)
+	ov := map[string]any{"Replace": map[string]string{filepath.Join(repo, e.Pkgdir, "zz_verif_canary_test.go"): testFile}}
+	ovb, _ := json.Marshal(ov)
+	ovFile := filepath.Join(wd, "overlay.json")
+	os.WriteFile(ovFile, ovb, 0o644)
+	cmd := exec.Command("go", "test", "-overlay", ovFile, "-vet=off", "-count=1", "-timeout", "180s", "-run", "^TestVerifReplay$", "./"+e.Pkgdir)
+	cmd.Dir = repo
+	cmd.Env = append(os.Environ(), "GOFLAGS=-mod=mod", "GOPROXY=off", "GOSUMDB=off", "GOTOOLCHAIN=local")
+	out, _ := cmd.CombinedOutput()
+	txt := string(out)
+	rr.TestFile = string(src)
+	rr.TestOutput = trunc(txt, 3000)
+	rr.How += "; canary input: " + e.Input
+	if strings.Contains(txt, "VERIF-REPLAY-VIOLATED") {
+		rr.Reproduced = true
+		return true
 	}
 	return false
 }
